@@ -7,6 +7,14 @@ GT = "./internal/mysql/gtids"
 OPT = "./internal/app/optimization"
 
 REGISTRY = {
+    "C17": dict(
+        level="exploration",
+        units=[dict(pkg=APP, test="TestVerifC17", quick=6000, thorough=300000, shards_quick=16, shards_thorough=16)],
+    ),
+    "C18": dict(
+        level="exploration",
+        units=[dict(pkg=APP, test="TestVerifC18", quick=8000, thorough=400000, shards_quick=16, shards_thorough=16)],
+    ),
     "C08": dict(
         level="exploration",
         units=[dict(pkg=APP, test="TestVerifC08", quick=4000, thorough=200000, shards_quick=16, shards_thorough=16)],
